@@ -96,6 +96,23 @@ def exec_op(op: dict, keep: dict | None = None) -> str:
                 keep["data_mutated"] = before is not None and before != {k: id(v) for k, v in data.items()}
                 keep["params_mutated"] = snap != _params_digest(params)
             return _frame_digest(res)
+        if op["op"] == "reform_aggspec":
+            # a reform that re-defines a built-in aggregate through the documented aggregation-spec arguments
+            params, functions = set_up_policy_environment(op["date"])
+            df, _ = popgen.population(random.Random(op["seed"]), op["date"], n_clusters=2)
+            kw = {}
+            g = extract.aggregation_dicts("aggregate_by_group")
+            if op["group_key"] in g:
+                kw["aggregate_by_group_specs"] = {op["group_key"]: {"aggr": "sum", "source_col": "kind"}}
+            p = extract.aggregation_dicts("aggregate_by_p_id")
+            if op["pid_key"] in p:
+                kw["aggregate_by_p_id_specs"] = {op["pid_key"]: {**p[op["pid_key"]], "aggr": "sum", "source_col": "kind"}}
+            snap = json.dumps(kw, sort_keys=True)
+            res = compute_taxes_and_transfers(data=df, params=params, functions=functions,
+                                              targets=[op["group_key"], op["pid_key"], "arbeitsl_geld_2_m_bg"], **kw)
+            if keep is not None:
+                keep["params_mutated"] = snap != json.dumps(kw, sort_keys=True)
+            return _frame_digest(res)
         if op["op"] == "reform_inplace":
             # a user edits the environment they were handed, in place, and simulates with it; nothing of this may
             # reach environments set up later
@@ -142,9 +159,29 @@ def exec_op(op: dict, keep: dict | None = None) -> str:
     raise ValueError(op)
 
 
+def _state_repr(o, depth=0):
+    """Canonical text of a module-level value: containers by content, functions/classes by qualified name."""
+    if depth > 6:
+        return "…"
+    if isinstance(o, dict):
+        return "{" + ",".join(sorted(f"{_state_repr(k, depth + 1)}:{_state_repr(v, depth + 1)}" for k, v in o.items())) + "}"
+    if isinstance(o, (list, tuple)):
+        return "[" + ",".join(_state_repr(v, depth + 1) for v in o) + "]"
+    if isinstance(o, (set, frozenset)):
+        return "{" + ",".join(sorted(_state_repr(v, depth + 1) for v in o)) + "}"
+    if callable(o):
+        return f"<{getattr(o, '__module__', '?')}.{getattr(o, '__qualname__', type(o).__name__)}>"
+    if isinstance(o, (str, int, float, bool, type(None))):
+        return repr(o)
+    if isinstance(o, np.ndarray):
+        return "nd" + repr(o.tolist())
+    return f"<{type(o).__module__}.{type(o).__name__}>"
+
+
 def process_state() -> dict:
-    """What the model's PState abstracts: identities of the rule functions bound in their modules,
-    names injected into the module namespaces, length of the registry."""
+    """What the model's PState abstracts: identities of the rule functions bound in their modules, names injected
+    into the module namespaces, length of the registry -- and a digest of EVERY module-level container (dict, list,
+    set, tuple) of every loaded `_gettsim` module (aggregation specs, configuration tables, registries, caches)."""
     from _gettsim.shared import TIME_DEPENDENT_FUNCTIONS
     mods = {}
     injected = {}
@@ -154,7 +191,23 @@ def process_state() -> dict:
             continue
         mods[f"{e['module']}.{e['fname']}"] = id(getattr(m, e["fname"], None))
         injected[e["module"]] = sorted(k for k in vars(m) if k in ("numpy", "jax", "jax.numpy"))
-    return {"modules": mods, "injected": injected,
+    containers = {}
+    for name, m in sorted(sys.modules.items()):
+        if not (name == "_gettsim" or name.startswith("_gettsim.")) or m is None or name.startswith("_gettsim_tests"):
+            continue
+        for k, v in sorted(vars(m).items()):
+            if k.startswith("__") or not isinstance(v, (dict, list, set, tuple)):
+                continue
+            containers[f"{name}.{k}"] = hashlib.sha256(_state_repr(v).encode()).hexdigest()[:12]
+        # caches hidden in function objects (functools.lru_cache and friends)
+        for k, v in sorted(vars(m).items()):
+            info = getattr(v, "cache_info", None)
+            if callable(info) and getattr(v, "__module__", None) == name:
+                try:
+                    containers[f"{name}.{k}.cache"] = "lru_cache present"
+                except Exception:  # noqa: BLE001
+                    pass
+    return {"modules": mods, "injected": injected, "containers": containers,
             "registry": sum(len(v) for v in TIME_DEPENDENT_FUNCTIONS.values())}
 
 
@@ -184,8 +237,12 @@ def random_history(rnd, length):
                       "int_as_float": rnd.random() < 0.3})
         elif k < 0.7:
             h.append({"op": "reform", "date": d, "seed": rnd.randint(0, 50), "targets": ["kindergeld_m", "sozialv_beitr_arbeitnehmer_m"]})
-        elif k < 0.82:
+        elif k < 0.78:
             h.append({"op": "reform_inplace", "date": d, "seed": rnd.randint(0, 50)})
+        elif k < 0.86:
+            h.append({"op": "reform_aggspec", "date": d, "seed": rnd.randint(0, 50),
+                      "group_key": rnd.choice(["anz_kinder_bis_6_fg", "anz_personen_hh", "anz_erwachsene_bg", "anz_kinder_bis_17_hh"]),
+                      "pid_key": "kindergeld_anz_ansprüche"})
         else:
             e = rnd.choice(rules)
             h.append({"op": "vectorize", "rule": e["fname"], "module": e["module"], "date": d})
@@ -196,9 +253,10 @@ def run(tier: str) -> int:
     r = common.Run("C14", tier)
     quick = tier == "quick"
     r.rule = ("random histories of real API calls in one process (set-up for a date, simulate a population with targets / "
-              "rounding / DataFrame or dict input / a column needing conversion, reform, rewrite a rule into array form); "
+              "rounding / DataFrame or dict input / a column needing conversion, reform of parameters and functions, in-place edit of "
+              "a returned environment, re-definition of built-in aggregates through aggregation specs, rewrite a rule into array form); "
               "after every step the process state (identity of every rule function in its module, injected names, registry "
-              "length) and the caller's objects are compared with the state machine model (fixed transition = identity); "
+              "length, digest of every module-level container of every _gettsim module) and the caller's objects are compared with the state machine model (fixed transition = identity); "
               "every call's result digest is compared with the same call in a fresh interpreter, and with its own repetition. "
               "distinct = distinct (history prefix, call).")
     common.build_and_audit(r, ["C14"], leanchecker=not quick)
@@ -210,7 +268,10 @@ def run(tier: str) -> int:
             h = random_history(rnd, length)
             d0 = rnd.choice(["2021-01-01", "2023-07-01", "2019-07-01"])
             y = int(d0[:4])
-            h = h[:2] + [{"op": "reform_inplace", "date": f"{y}-03-01", "seed": rnd.randint(0, 50)}, {"op": "setup", "date": d0},
+            h = h[:2] + [{"op": "reform_inplace", "date": f"{y}-03-01", "seed": rnd.randint(0, 50)},
+                         {"op": "reform_aggspec", "date": d0, "seed": rnd.randint(0, 50), "group_key": "anz_kinder_bis_6_fg",
+                          "pid_key": "kindergeld_anz_ansprüche"},
+                         {"op": "setup", "date": d0},
                          {"op": "simulate", "date": d0, "seed": rnd.randint(0, 50), "targets": None, "rounding": True,
                           "as_dict": False, "int_as_float": False}] + h[2:]
             futures = [pool.submit(fresh, op) for op in h]
@@ -225,12 +286,18 @@ def run(tier: str) -> int:
                 r.case({"history": [json.dumps(x, sort_keys=True) for x in prefix]})
                 r.traces += 1
                 s1 = process_state()
+                # modules imported lazily bring new containers: they join the baseline, only changes count
+                for k2, v2 in s1["containers"].items():
+                    s0["containers"].setdefault(k2, v2)
                 if s1 != s0:
                     changed = [k for k in s1["modules"] if s1["modules"][k] != s0["modules"].get(k)][:3]
                     inj = {k: v for k, v in s1["injected"].items() if v != s0["injected"].get(k)}
+                    cont = sorted(k for k in set(s1["containers"]) | set(s0["containers"])
+                                  if s1["containers"].get(k) != s0["containers"].get(k))[:4]
                     r.hit({"kind": "process-state-changed", "op": op["op"]},
                           f"after {op['op']} the process state differs from the initial one: rebound {changed}, injected {inj}, "
-                          f"registry {s0['registry']} -> {s1['registry']}", {"history": prefix})
+                          f"module-level containers changed {cont}, registry {s0['registry']} -> {s1['registry']}",
+                          {"history": prefix})
                     r.broke("correspondence", "process state vs Core/Process.lean (fixed transition = identity)", json.dumps(op))
                     s0 = s1
                 if keep.get("data_mutated"):
